@@ -102,6 +102,21 @@ fn boundary_universe() -> (Vec<V>, usize) {
         &[None, Some(0), Some(M)], &[None, Some(0), Some(M)], &[None, Some("4294967295"), Some("4294967296"), Some("9999999999"), Some("10000000000"), Some("1z"), Some("a")])
 }
 
+/// long alphabetic local parts that share a long prefix (a comparison through a fixed-size buffer or a hash would tie them)
+fn long_local_universe() -> (Vec<V>, usize) {
+    use std::sync::OnceLock;
+    static NAMES: OnceLock<Vec<&'static str>> = OnceLock::new();
+    let names = NAMES.get_or_init(|| {
+        let mut v: Vec<&'static str> = vec![];
+        for n in [31usize, 63, 64, 65, 127, 128, 255, 300] { for tail in ["", "a", "b", "a.1", "b.0"] {
+            let s: &'static str = Box::leak(format!("{}{}", "a".repeat(n), tail).into_boxed_str()); v.push(s);
+        }}
+        v
+    });
+    let locals: Vec<Option<&'static str>> = std::iter::once(None).chain(names.iter().map(|s| Some(*s))).collect();
+    build_universe(&[0], &[vec![1, 0]], &[None, Some(("rc", 1))], &[None], &[None], &locals)
+}
+
 fn universe(quick: bool) -> (Vec<V>, usize) {
     let epochs = [0u32, 1];
     let releases: Vec<Vec<u32>> = if quick { vec![vec![1], vec![1, 0, 1], vec![1, 1], vec![2]] } else { vec![vec![1], vec![1, 0, 1], vec![1, 1], vec![2], vec![1, 0, 0, 1], vec![0], vec![10]] };
@@ -240,6 +255,8 @@ fn main() {
     let (ub, nb_versions) = boundary_universe();
     let s_bound = check_pairs(&ctx, &ub);
     let s_pairs = s_pairs.merge(s_bound);
+    let (ul, nl_versions) = long_local_universe();
+    let s_pairs = s_pairs.merge(check_pairs(&ctx, &ul));
     let tri_n = if ctx.quick() { 150 } else { 400 };
     let stride = (u.len() / tri_n).max(1);
     // stride chosen odd relative to 5 spellings so that all spellings occur
@@ -256,12 +273,12 @@ fn main() {
 
     let all = s_pairs.clone().merge(s_tri).merge(s_mt);
     let mut cov = Coverage::default();
-    cov.states = (u.len() + ub.len()) as u64;
+    cov.states = (u.len() + ub.len() + ul.len()) as u64;
     cov.transitions = all.get("pairs");
     cov.evaluations = all.get("pairs") + all.get("triples") + all.get("max_tag_sets");
     cov.traces_validated = cov.evaluations;
     cov.distinct_nontrivial = s_pairs.get("want_unequal") + s_pairs.get("same_version_spelling_pairs");
-    cov.rule = format!("{n_versions} abstract versions (epoch x release x pre x post x dev x local field universe), each written in 5 spellings (normal; upper case + long labels + -/_ separators; leading zeros + v; trailing .0.0 release + alternative labels + -N post; explicit epoch + .0 + implicit zero numbers) and parsed by the real parser = {} objects; ALL ordered pairs of objects vs the C11 key, spellings of one version must be ==; a second universe of {nb_versions} versions whose epoch / release / pre / post / dev numbers sit at 0 and 2^32-1 (all ordered pairs of its spellings as well); all triples of a {}-element sub-universe; find_max_version_tag on all ordered selections of <=3 of {} objects. non-trivial = pairs that differ under the key or are distinct spellings of one version", u.len(), sub.len(), sub2.len());
+    cov.rule = format!("{n_versions} abstract versions (epoch x release x pre x post x dev x local field universe), each written in 5 spellings (normal; upper case + long labels + -/_ separators; leading zeros + v; trailing .0.0 release + alternative labels + -N post; explicit epoch + .0 + implicit zero numbers) and parsed by the real parser = {} objects; ALL ordered pairs of objects vs the C11 key, spellings of one version must be ==; a second universe of {nb_versions} versions whose epoch / release / pre / post / dev numbers sit at 0 and 2^32-1 (all ordered pairs of its spellings as well); a third universe of {nl_versions} versions whose local parts are 31..300 characters long and share their prefix; all triples of a {}-element sub-universe; find_max_version_tag on all ordered selections of <=3 of {} objects. non-trivial = pairs that differ under the key or are distinct spellings of one version", u.len(), sub.len(), sub2.len());
     cov.exhaustive = true;
     cov.samples = vec![json!({"a": u[7].text, "b": u[u.len()/2+3].text}), json!({"a": u[u.len()-1].text, "b": u[u.len()-4].text}), json!({"a": u[11].text, "b": u[13].text})];
     cov.set("clause_counts", all.to_json());
